@@ -4,6 +4,7 @@ import (
 	"bytes"
 	"context"
 	"math"
+	"sync"
 	"time"
 
 	"github.com/pkg/errors"
@@ -27,6 +28,7 @@ type TempPool struct {
 	cleanRemovedNewOperationsDeep     int
 	cleanRemovedProposalDeep          int
 	cleanRemovedBallotDeep            int
+	setBallotLock                     sync.Mutex
 }
 
 func NewTempPool(
@@ -803,6 +805,18 @@ func (db *TempPool) SetBallot(bl base.Ballot) (bool, error) {
 		}
 
 		blb = b
+	}
+
+	// NOTE checking and writing should be atomic; only the first ballot will
+	// be stored.
+	db.setBallotLock.Lock()
+	defer db.setBallotLock.Unlock()
+
+	switch found, err := pst.Exists(key); {
+	case err != nil:
+		return false, e.Wrap(err)
+	case found:
+		return false, nil
 	}
 
 	if err := pst.Put(key, blb, nil); err != nil {
